@@ -9,7 +9,8 @@ is "same pre-image").
 
 Full-strength statement: `Complete F` — equal pre-images imply equal values of every attribute the property
 lists.  The pinned code violates it (`C08_violated`; kernel-checked witnesses `C08_witness_*`): writes are not
-framed, and `tools`, the group names of named sources/tools and named secrets never reach the pre-image.
+framed, and `tools`, the group names of named tools and named secrets never reach the pre-image (the names of named
+source groups do since the repair, `C08_partial_named_srcs`).
 Proved instead: the coverage obligation (`C08_coverage`: every other listed attribute is written exactly once,
 unconditionally), the single-attribute theorems `C08_partial_*` (changing one scalar/boolean always changes
 the pre-image; changing one list/map changes it unless the *concatenations* coincide), and `C08_full_framed`
@@ -23,7 +24,7 @@ abbrev F : Facts := C08.facts
 /-- The attributes of the property statement, as far as `ruleHash` has an accessor for them
     (`tools` has none: see `C08_witness_tools`). -/
 def listed : List AttrRef :=
-  [.s .command, .l .sources, .l .outs, .g .namedOuts, .l .optionalOuts, .l .deps, .m .env, .passEnv, .l .labels,
+  [.s .command, .l .srcs, .g .namedSrcs, .l .outs, .g .namedOuts, .l .optionalOuts, .l .deps, .m .env, .passEnv, .l .labels,
    .l .secrets, .b .isBinary, .b .sandbox, .l .outputDirs, .m .entryPoints, .s .fileContent, .l .requires,
    .g .provides, .s .label]
 
@@ -89,9 +90,6 @@ theorem C08_witness_pass_env :
 
 /-- `sandbox = True` vs `subrepo = True`: an optional boolean writes nothing when false. -/
 theorem C08_witness_sandbox : Collide {} { sandbox := true } { isSubrepo := true } := by decide
-
-/-- `srcs = {"a": ["x"]}` vs `{"b": ["x"]}`: the *names* of named source groups (→ `$SRCS_A`) are not hashed. -/
-theorem C08_witness_named_src_names : Collide {} { namedSrcs := [(a, [x])] } { namedSrcs := [(b, [x])] } := by decide
 
 /-- `tools = ["x"]` vs `["y"]` (system tools) and the names of named tools (→ `$TOOLS_A`): never read. -/
 theorem C08_witness_tools : Collide {} { tools := [x] } { tools := [y] } ∧
@@ -221,7 +219,7 @@ theorem agree_fileContent (c : Ctx) (t : Target) (x y : Bytes) :
     cases a <;> simp_all [view]
 
 theorem agree_srcs (c : Ctx) (t : Target) (x y : List Bytes) :
-    AgreeExcept (.l .sources) (view F c { t with srcs := x }) (view F c { t with srcs := y }) := by
+    AgreeExcept (.l .srcs) (view F c { t with srcs := x }) (view F c { t with srcs := y }) := by
   refine ⟨fun a h => ?_, fun a h => ?_, fun a h => ?_, fun a h => ?_, fun a h => ?_, fun _ => rfl, rfl⟩ <;>
     cases a <;> simp_all [view]
 
@@ -253,11 +251,28 @@ theorem C08_partial_sandbox (c : Ctx) (t : Target) (x y : Bool)
     (e : ruleSer F c { t with sandbox := x } = ruleSer F c { t with sandbox := y }) : x = y := by
   simpa [view] using C08_partial_bool c _ _ .sandbox (by decide) (agree_sandbox c t x y) e
 
+theorem agree_namedSrcs (c : Ctx) (t : Target) (x y : List (Bytes × List Bytes)) :
+    AgreeExcept (.g .namedSrcs) (view F c { t with namedSrcs := x }) (view F c { t with namedSrcs := y }) := by
+  refine ⟨fun a h => ?_, fun a h => ?_, fun a h => ?_, fun a h => ?_, fun a h => ?_, fun _ => rfl, rfl⟩ <;>
+    cases a <;> simp_all [view]
+
+/-- Since the repair (the names of named source groups are written, each followed by its members): changing
+    only the named sources changes the rule hash unless the `name member…` runs coincide; in particular renaming
+    one group (`{"a": ["x"]}` → `{"b": ["x"]}`, the stale build observed end to end before the repair) is seen. -/
+theorem C08_partial_named_srcs (c : Ctx) (t : Target) (x y : List (Bytes × List Bytes))
+    (e : ruleSer F c { t with namedSrcs := x } = ruleSer F c { t with namedSrcs := y }) :
+    ((keysOrder true x).flatMap fun kv => kv.1 ++ kv.2.flatten) = ((keysOrder true y).flatMap fun kv => kv.1 ++ kv.2.flatten) := by
+  have h := C08_partial_groups c _ _ .namedSrcs (by decide) (agree_namedSrcs c t x y) e
+  have hs : F.namedSrcsSorted = true := by decide
+  simpa [view, hs] using h
+
+example : ruleSer F {} { namedSrcs := [(a, [x])] } ≠ ruleSer F {} { namedSrcs := [(b, [x])] } := by decide
+
 /-- Changing only `srcs` changes the rule hash unless the entries concatenate to the same bytes. -/
 theorem C08_partial_srcs (c : Ctx) (t : Target) (x y : List Bytes)
     (e : ruleSer F c { t with srcs := x } = ruleSer F c { t with srcs := y }) : x.flatten = y.flatten := by
-  have := C08_partial_list c _ _ .sources (by decide) (agree_srcs c t x y) e
-  simpa [view, allInputs] using this
+  have := C08_partial_list c _ _ .srcs (by decide) (agree_srcs c t x y) e
+  simpa [view] using this
 
 /-- … and conversely: equal concatenations give equal rule hashes, so for `srcs` the collisions are *exactly* the
     lists with the same concatenation. -/
@@ -267,7 +282,7 @@ theorem C08_partial_srcs_iff (c : Ctx) (t : Target) (x y : List Bytes) :
   · exact C08_partial_srcs c t x y
   · intro h
     unfold ruleSer
-    exact serView_congr_list F c .sources (by decide) (agree_srcs c t x y) (by simpa [view, allInputs] using h) F.items
+    exact serView_congr_list F c .srcs (by decide) (agree_srcs c t x y) (by simpa [view] using h) F.items
 
 /-- Dependencies are hashed through `BuildLabel.String()`, which is not injective on in-memory labels:
     package `a:b`, name `c` and package `a`, name `b:c` both print `//a:b:c` (the BUILD parser rejects `:` in
